@@ -414,7 +414,7 @@ def degenerate_cases(tier, rng):
     out = []
 
     def add(name, g):
-        out.append(dict(kind="aut", name="degenerate/" + name, g=g))
+        out.append(dict(kind="aut", name="degenerate/" + name, g=g, attr=True))
     # node id 0 (falsy) alone, with a neighbour, as the minimum of an orbit / of the anchor component
     z = _mk(3, [(1, 2, 1), (2, 3, 1)])
     add("id0-path", GG.relabel(z, {1: 0, 2: 5, 3: 9}))
@@ -619,6 +619,72 @@ def history_cases(tier, rng):
     return out
 
 
+# ------------------------------------------------------------------ orbit.py: OrbitAccuracy(approx, exact)
+
+def _rand_partition(ids, rng):
+    ids = list(ids)
+    rng.shuffle(ids)
+    out = []
+    while ids:
+        k = rng.randint(1, max(1, min(4, len(ids))))
+        out.append(ids[:k])
+        ids = ids[k:]
+    return out
+
+
+def orbacc_cases(tier, rng):
+    """two lists of node sets: degenerate inputs (empty, unequal node sets = ValueError, empty / repeated / overlapping
+    members, duplicates inside a member, id 0, two- and three-digit ids), random partitions (approx = a coarsening, a
+    refinement, unrelated, the same in another order) and the estimate against the exact analysis of random graphs"""
+    out = []
+
+    def add(name, A, E):
+        out.append(dict(kind="orbacc", name="orbacc/" + name, A=A, E=E))
+    add("empty", [], [])
+    add("one-node", [[3]], [[3]])
+    add("different-node-sets", [[1, 2]], [[1], [3]])
+    add("missing-in-approx", [[1]], [[1], [2]])
+    add("missing-in-exact", [[1], [2]], [[2]])
+    add("empty-member", [[1, 2], []], [[1], [2]])
+    add("only-empty-members", [[]], [[], []])
+    add("overlap-last-wins", [[1, 2], [2, 3]], [[1], [2, 3]])
+    add("overlap-in-exact", [[1, 2, 3]], [[1, 2], [2, 3], [1]])
+    add("duplicate-member", [[1, 2], [1, 2], [3]], [[1, 2], [3]])
+    add("duplicates-inside", [[1, 1, 2], [3]], [[2, 1], [3, 3]])
+    add("id0-two-digit", [[0, 10], [9, 100]], [[0], [10], [9, 100]])
+    add("equal-other-order", [[5, 6], [1], [2, 3, 4]], [[2, 4, 3], [6, 5], [1]])
+    add("two-nodes-merged", [[7, 8]], [[7], [8]])
+    add("two-nodes-split", [[7], [8]], [[8, 7]])
+    for k in range(60 if tier == "quick" else 800):
+        ids = rng.sample(range(0, 30), rng.randint(1, 12))
+        E = _rand_partition(ids, rng)
+        mode = k % 4
+        if mode == 0:                                   # approx coarser (what the WL estimate is)
+            A, cur = [], []
+            for o in E:
+                cur = cur + o
+                if rng.random() < 0.5:
+                    A.append(cur)
+                    cur = []
+            if cur:
+                A.append(cur)
+        elif mode == 1:                                 # approx finer
+            A = [p for o in E for p in _rand_partition(o, rng)]
+        elif mode == 2:
+            A = _rand_partition(ids, rng)
+        else:
+            A = [list(reversed(o)) for o in E]
+            rng.shuffle(A)
+        add("rand#%d/%d" % (k, mode), A, E)
+    from synkit.Graph.Matcher.automorphism import Automorphism
+    from synkit.Graph.Matcher.auto_est import AutoEst
+    for k in range(30 if tier == "quick" else 300):
+        g = random_sym_graph(rng)
+        G = GG.to_nx(g)
+        add("graph#%d" % k, [sorted(o) for o in AutoEst(G, max_iter=rng.choice([0, 1, 10])).fit().orbits], [sorted(o) for o in Automorphism(G).orbits])
+    return out
+
+
 # ------------------------------------------------------------------ entry
 
 def gen_cases(tier, rng):
@@ -662,7 +728,19 @@ def gen_cases(tier, rng):
     cases += keys_cases(tier, rng)
     cases += repeated_species_cases(tier, rng)
     cases += history_cases(tier, rng)
+    cases += orbacc_cases(tier, rng)
     # rule applications
     cases += hand_cases(tier)
     cases += corpus_cases(tier, rng)
-    return cases
+    return riffle(cases)
+
+
+SHARD_HINT = 100     # = SHARD of harness/props/C11.py
+
+
+def riffle(cases):
+    """The model is evaluated in shards of consecutive cases (one coqc each, 16 at a time); the expensive cases come in
+    runs (symmetric families: Petersen, K4,4, stars; long chains; whole-molecule templates), so that one shard took 19 s of
+    the 98 CPU-s of all 50 and set the wall time of the stage.  Deal the cases out round-robin: shard j gets every n-th."""
+    n = len(cases) // SHARD_HINT + 1
+    return [c for j in range(n) for c in cases[j::n]]
